@@ -44,6 +44,17 @@ def layout(ctx, rule):
         ctx.check(bool(impl) and all(b.derived or True for b in impl), rule, adt, "pread-derive", "%s is read through the derived scroll::Pread implementation" % adt.split("::")[-1])
 
 
+def parse_rejections(ctx, rule):
+    """IndexedRamBundle::parse refuses a buffer only for a short header or a wrong magic: table and module bounds are
+    checked where they are used (get_module / startup_code), so a bundle without module data still parses."""
+    import re as _re
+    b = ctx.body(PARSE)
+    from rules.common import error_exits
+    errs = error_exits(b)
+    allowed = {"construct:InvalidRamBundleMagic", "propagate:Pread::pread_with"}
+    ctx.check(set(errs) == allowed, rule, PARSE, "parse:rejections", "parse fails only for a header that cannot be read or a wrong magic", detail=str(sorted(errs)))
+
+
 def buffer_access(ctx, rule):
     """C20.R2: the byte buffer is touched only through bounds-checked pread_with."""
     for p in (PARSE, GETM, STARTUP, ISRB):
